@@ -126,6 +126,11 @@ prop("C30", "K", "model_checking", text="Bounded model checking on the real Modu
      technique="Kani/CBMC bounded model checking (K-ops additions, K-const, K-conv)", outside="section emission in encode_internal (wasm-encoder calls)")
 
 
+prop("C13", "K", "model_checking",
+     text="Bounded model checking of the real ModuleTypes on a type space built through its own add_* API: a third symbolic array type is deduplicated against either existing type or gets the next index, existing types keep index and content, every new type gets a group of its own; function types are deduplicated iff their signatures are equal; supertype, finality and shared flag are part of the type.",
+     technique="Kani/CBMC bounded model checking of ModuleTypes::add_* (exactness, dedup, stability of existing types)",
+     outside="type spaces that come from parsing (ModuleTypes::new): explicit recursion groups and duplicate parsed types - CBMC does not finish ModuleTypes::new with two parsed types in 30 min (measured twice); struct types (a CBMC counterexample on add_struct_type did not reproduce natively: encoding artefact, harness removed); emission of the type section (encode_type is C01's subject); more than 1 param/result")
+
 def generated_harness_files(pid, tier, seed):
     out = {}
     if pid in ("C06", "C07", "C08", "C09"):
